@@ -33,8 +33,19 @@ fn main() {
     plans::run_property(&prop, &tier, threads, &budget, &findings, &mut report);
     let found: Vec<Found> = findings.map.lock().unwrap().values().filter(|f| f.prop == prop).cloned().collect();
     let mut with_paths = Vec::new();
+    // before anything is reported, every finding is re-executed twice and must repeat exactly:
+    // a violation that does not reproduce is a machinery problem, not a verdict
     for f in found.iter().take(40) {
-        let path = write_replay(&replay_dir, "seqmc", f, "");
+        for round in 0..2 {
+            match plans::reproduce(&prop, &f.sig, f.profile, &f.history, &f.extra, false, tier == "quick") {
+                Ok(true) => {}
+                Ok(false) => report.machinery_errors.push(format!("finding {} did not reproduce on re-execution #{}", f.sig, round + 1)),
+                Err(e) => report.machinery_errors.push(format!("finding {} could not be re-executed: {e}", f.sig)),
+            }
+        }
+    }
+    for f in found.iter().take(40) {
+        let path = write_replay(&replay_dir, "seqmc", f, &tier);
         with_paths.push((f.clone(), path));
     }
     let ev = report.to_json(t0.elapsed().as_secs_f64(), &with_paths);
